@@ -197,39 +197,116 @@ func verifC19_SyncPrefix() {
 	s.Close()
 }
 
-// verifC19_SyncKey: the single-key adapter.
+// verifC19_SyncKey: the single-key adapter over a history of writes to the watched key, to a
+// sibling key that has the watched key as a prefix, and to an unrelated key. Watch events
+// (with their PUT/DELETE payload, as etcd sends them for the watched key only) may be lost or
+// queue up behind each other and behind a periodic pull; the consumer reads at the end.
+// Every delivered value is a value the key had, in store order, consecutive ones differ, the
+// last one is the final value, and writes to other keys cause no delivery.
 func verifC19_SyncKey() {
+	const key = "/k"
+	keys := []string{"/k", "/k2", "/x"}
+	vals := []string{"v1", "v2"}
 	vStoreKV, vStoreRev, vRevision = map[string]string{}, map[string]int64{}, 1
 	vWatchCh = make(chan clientv3.WatchResponse, 8)
 	vTickCh = make(chan time.Time, 8)
 	vPullFails, vWatchCount = false, 0
 	s := &syncer{cluster: &cluster{}, pullInterval: time.Second, done: make(chan struct{})}
 	verifInitMaps(s) // maps a bypassed constructor would have made
-	ch, _ := s.Sync("/k")
+	ch, _ := s.Sync(key)
 	verifQuiesce()
-	vStoreKV["/k"] = "v1"
-	if verifBool("announced") {
-		vWatchCh <- clientv3.WatchResponse{}
+
+	// history of the watched key: "" = absent
+	var history [8]string
+	history[0] = ""
+	nh := 1
+	changes := 0
+	writes := verifBound("writes")
+	for i := 0; i < writes; i++ {
+		k := keys[verifChoose("write.key", 3)]
+		before, had := vStoreKV[key]
+		var ev *clientv3.Event
+		if verifBool("write.isDelete") {
+			delete(vStoreKV, k)
+			ev = &clientv3.Event{Type: mvccpb.DELETE, Kv: &mvccpb.KeyValue{Key: []byte(k)}}
+		} else {
+			v := vals[verifChoose("write.value", 2)]
+			vStoreKV[k] = v
+			vRevision++
+			vStoreRev[k] = vRevision
+			ev = &clientv3.Event{Type: mvccpb.PUT, Kv: &mvccpb.KeyValue{Key: []byte(k), Value: []byte(v), ModRevision: vRevision}}
+		}
+		after, has := vStoreKV[key]
+		if had != has || before != after {
+			changes++
+		}
+		cur := ""
+		if has {
+			cur = after
+		}
+		history[nh] = cur
+		nh++
+		if k == key && verifBool("write.announced") {
+			vWatchCh <- clientv3.WatchResponse{Events: []*clientv3.Event{ev}}
+		} else if k != key {
+			verifCover("write-to-another-key")
+		}
+		switch verifChoose("afterWrite", 3) {
+		case 0: // the syncer gets time to catch up
+			verifQuiesce()
+		case 1: // a periodic pull becomes due while events are still queued
+			vTickCh <- time.Time{}
+			verifCover("tick-while-events-are-queued")
+		case 2: // the next write follows immediately
+		}
 	}
 	verifQuiesce()
 	vTickCh <- time.Time{}
 	verifQuiesce()
-	select {
-	case v := <-ch:
-		verifAssert(v != nil && *v == "v1", "key-value-delivered")
+
+	var got [16]string
+	ng := 0
+	for {
+		select {
+		case v := <-ch:
+			if v == nil {
+				got[ng] = ""
+			} else {
+				got[ng] = *v
+			}
+			ng++
+			continue
+		default:
+		}
+		break
+	}
+	pos := 0
+	for i := 0; i < ng; i++ {
+		found := -1
+		for j := pos; j < nh; j++ {
+			if got[i] == history[j] {
+				found = j
+				break
+			}
+		}
+		verifAssert(found >= 0, "delivered-value-is-a-real-value-of-the-key-in-store-order")
+		if found >= 0 {
+			pos = found
+		}
+		if i > 0 {
+			verifAssert(got[i] != got[i-1], "consecutive-deliveries-differ")
+		}
+	}
+	final := history[nh-1]
+	if ng == 0 {
+		verifAssert(final == "", "converges-to-the-final-content")
+	} else {
+		verifAssert(got[ng-1] == final, "converges-to-the-final-content")
 		verifCover("delivered")
-	default:
-		verifAssert(false, "converges-to-the-final-content")
 	}
-	delete(vStoreKV, "/k")
-	vTickCh <- time.Time{}
-	verifQuiesce()
-	select {
-	case v := <-ch:
-		verifAssert(v == nil, "deletion-delivered-as-nil")
-	default:
-		verifAssert(false, "deletion-delivered")
-	}
+	// the first delivery reports the initial (absent) state; afterwards at most one delivery
+	// per change of the watched key
+	verifAssert(ng <= changes+1, "writes-to-other-keys-cause-no-delivery")
 	s.Close()
 }
 
